@@ -108,8 +108,7 @@ class ModuleInfo:
         self.path = path
         self.relpath = relpath
         self.source = source
-        from .desugar import desugar
-        self.tree, self.desugared = desugar(ast.parse(source, filename=path))     # reflective attribute idioms normalised (desugar.py)
+        self.tree, self.desugared = ast.parse(source, filename=path), 0      # normalised by Project._load (desugar.py) once all modules are parsed
         self.imports = {}      # alias -> module name
         self.from_imports = {}  # local name -> (module name, remote name)
         self.star_imports = []
@@ -148,6 +147,10 @@ class Project:
                 except SyntaxError as e:
                     raise AnalysisError("cannot parse %s: %s" % (rel, e))
                 self.modules[name] = mod
+        from .desugar import desugar, collect_info
+        self.inert_info = collect_info([m.tree for m in self.modules.values()])
+        for m in self.modules.values():
+            m.tree, m.desugared = desugar(m.tree, self.inert_info)       # reflective / inert / numpy spellings normalised
         from .desugar import normalise_keywords, canonical_roles, normalise_super
         self.super_calls_normalised = normalise_super([m.tree for m in self.modules.values()])
         self.keyword_calls_normalised = normalise_keywords([m.tree for m in self.modules.values()])
